@@ -4,7 +4,7 @@
 From XcpModel Require Import Base Backup Walker Meta Ops.
 From XcpProofs Require Import OpsProofs.
 From XcpModel Require Import Extracted.
-From XcpProofs Require Import ExtractedOk.
+From XcpProofs Require Import XOps.
 From XcpProofs Require Import PinnedSource.
 From XcpPins Require Import Pin_operations_new Pin_common_is_same_file.
 
@@ -62,3 +62,13 @@ Print Assumptions C03_no_self_overwrite.
 Print Assumptions C03_src_copy_new_order.
 Print Assumptions C03_src_pin_operations_new.
 Print Assumptions C03_src_pin_common_is_same_file.
+
+(* ---- further glue on this property's path, pinned token for token (an edit re-opens the obligation; the run then
+   looks for a failing input) ---- *)
+From XcpPins Require Import Pin_parfile_copy_worker Pin_parblock_dispatch_worker.
+Theorem C03_src_pin_parfile_copy_worker : pin_unchanged name_parfile_copy_worker.
+Proof. exact pin_parfile_copy_worker. Qed.
+Theorem C03_src_pin_parblock_dispatch_worker : pin_unchanged name_parblock_dispatch_worker.
+Proof. exact pin_parblock_dispatch_worker. Qed.
+Print Assumptions C03_src_pin_parfile_copy_worker.
+Print Assumptions C03_src_pin_parblock_dispatch_worker.
